@@ -84,7 +84,8 @@ def _run_all(files, budget, baseline, rows):
     try:
       for prop in props:
         t = time.time()
-        r = sh(f'./check {prop} --budget {budget}', cwd=VERIF, env=dict(os.environ, FSIM_REPO=WT))
+        b_ = max(int(budget), int(meta.get('budget', 0))) if f.endswith('patch.diff') else budget
+        r = sh(f'./check {prop} --budget {b_}' + (' --count 100000' if f.endswith('patch.diff') and meta.get('budget') else ''), cwd=VERIF, env=dict(os.environ, FSIM_REPO=WT))
         caught = 'VIOLATION property=' + prop in r.stdout
         status = 'caught' if caught else ('HARNESS-ERROR' if r.returncode == 2 else 'MISSED')
         first = next((l for l in r.stdout.splitlines() if l.startswith(('VIOLATION', 'HARNESS'))), '')
